@@ -371,7 +371,7 @@ Proof.
   - rewrite Hr, Ho; cbn [requested]; apply write_calls_PerRun.
 Qed.
 
-Theorem recombination_list_covers_run_repaired : forall gr pr er o ids vs cs out,
+Theorem recombination_list_covers_run_phase : forall gr pr er o ids vs cs out,
   o_recs o = true -> run gr PerRun pr er o ids vs cs = Some out ->
   exists calls,
     Forall2 (fun ci es => inst_rec_entries er (c_name (fst ci)) (snd ci) = Some es) (instances cs) calls /\
@@ -384,7 +384,7 @@ Proof.
   - rewrite Hr, Ho; cbn [requested]; apply write_calls_PerRun.
 Qed.
 
-Theorem changed_genotype_list_covers_run_repaired : forall rr pr er o ids vs cs out,
+Theorem changed_genotype_list_covers_run_phase : forall rr pr er o ids vs cs out,
   o_gts o = true -> run PerRun rr pr er o ids vs cs = Some out ->
   exists calls,
     Forall2 (fun c es => exists wr,
@@ -1155,18 +1155,18 @@ Qed.
 
 Theorem lists_cover_run_refuted :
   exists o ids vs cs out,
-    run_wf ids cs = true /\ run_current o ids vs cs = Some out /\
+    run_wf ids cs = true /\ run_old o ids vs cs = Some out /\
     ~ (exists calls,
-         Forall2 (fun ci es => inst_rec_entries current_emptyrule (c_name (fst ci)) (snd ci) = Some es) (instances cs) calls /\
+         Forall2 (fun ci es => inst_rec_entries old_emptyrule (c_name (fst ci)) (snd ci) = Some es) (instances cs) calls /\
          out_recs out = Some (Header :: map Entry (concat calls))) /\
     ~ (exists calls,
          Forall2 (fun c es => exists wr,
-                    write_records current_posrule (c_name c) vs (targets_of (c_insts c)) None (c_records c) = Some wr /\
+                    write_records old_posrule (c_name c) vs (targets_of (c_insts c)) None (c_records c) = Some wr /\
                     es = concat (map fst wr))
                  (filter c_selected cs) calls /\
          out_gts out = Some (Header :: map Entry (concat calls))).
 Proof.
-  destruct (run_current wit_opts wit_ids wit_samples wit_cs) as [out|] eqn:Er; [|vm_compute in Er; discriminate].
+  destruct (run_old wit_opts wit_ids wit_samples wit_cs) as [out|] eqn:Er; [|vm_compute in Er; discriminate].
   exists wit_opts, wit_ids, wit_samples, wit_cs, out.
   split; [vm_compute; reflexivity|]. split; [exact Er|].
   vm_compute in Er; injection Er as <-; split.
@@ -1174,7 +1174,7 @@ Proof.
     vm_compute in HF; injection HF as <-; vm_compute in Hfile; discriminate.
   - intros [calls [HF Hfile]].
     apply (Forall2_exists_map_opt _ _ _
-             (fun c => write_records current_posrule (c_name c) wit_samples (targets_of (c_insts c)) None (c_records c))
+             (fun c => write_records old_posrule (c_name c) wit_samples (targets_of (c_insts c)) None (c_records c))
              (fun wr => concat (map fst wr))) in HF.
     vm_compute in HF; injection HF as <-; vm_compute in Hfile; discriminate.
 Qed.
@@ -1182,10 +1182,10 @@ Qed.
 (* even with the file opened once per run, the position column of the current code is not the VCF POS *)
 Theorem changes_are_diffs_refuted :
   exists o ids vs cs out,
-    run_wf ids cs = true /\ run PerRun PerRun current_posrule current_emptyrule o ids vs cs = Some out /\
+    run_wf ids cs = true /\ run PerRun PerRun old_posrule old_emptyrule o ids vs cs = Some out /\
     out_gts out <> Some (Header :: map Entry (run_diffs 1 cs (out_vcf out))).
 Proof.
-  destruct (run PerRun PerRun current_posrule current_emptyrule wit_opts wit_ids wit_samples wit_cs) as [out|] eqn:Er;
+  destruct (run PerRun PerRun old_posrule old_emptyrule wit_opts wit_ids wit_samples wit_cs) as [out|] eqn:Er;
     [|vm_compute in Er; discriminate].
   exists wit_opts, wit_ids, wit_samples, wit_cs, out.
   split; [vm_compute; reflexivity|]. split; [exact Er|].
@@ -1275,8 +1275,8 @@ Theorem run_completes_refuted :
     (forall ci, In ci (instances cs) ->
        length (i_costs (snd ci)) = Nat.max 1 (length (i_positions (snd ci))) /\
        length (i_tv (snd ci)) = length (i_positions (snd ci))) /\
-    run_current o ids vs cs = None /\
-    run_current (mkOpts (o_reads o) (o_gts o) false) ids vs cs <> None.
+    run_old o ids vs cs = None /\
+    run_old (mkOpts (o_reads o) (o_gts o) false) ids vs cs <> None.
 Proof.
   exists (mkOpts true true true), wit_ids, wit_samples, wit_empty_cs.
   split; [vm_compute; reflexivity|]. split.
